@@ -15,6 +15,8 @@ def main(prop: str, tier: str) -> int:
         composite.add_part(rep, 'documented_order', comment_order.run(rep, tier))
     except ImportError:
         pass
+    from checks import inserted_comments
+    composite.add_part(rep, 'inserted_comments_between_fields', inserted_comments.run(rep, tier, {'tree'}))
     rep.cov.setdefault('states', 1)
     rep.cov.setdefault('transitions', 1)
     rep.assumptions += ['documents of <= 3-4 structural lines; call sequences: every single call, auto-claim twice, '
